@@ -139,6 +139,7 @@ class Proc:
         self.active_req = None
         self.active_watch = None
         self.results = {}
+        self.waiting = {}       # rsrc_id -> node the last evaluation of the request stopped at
 
     def on_retry(self, rsrc_id):
         self.world.count('retries')
@@ -441,8 +442,10 @@ class World:
         if res is None:
             if rid in self.cont:
                 self.cont[rid]['waited'] = True
+            proc.waiting[rid] = task.meta.get('met_at')
             self.oracle.check_wakeup(proc, task, self.sched.live)
         else:
+            proc.waiting.pop(rid, None)
             self.count('create_requests_completed')
 
     # -- choices ---------------------------------------------------------------------
@@ -713,29 +716,27 @@ class World:
                 if c['waited']:
                     self.count('waits_resolved')
                 continue
-            blocking = None
-            for _kind, path in c['paths']:
-                node = self.srv.nodes.get(path)
-                if node is None or node.owner != proc.sid:
-                    blocking = (path, node)
-                    break
-            if blocking is None:
-                path, node = c['paths'][0][1], self.srv.nodes.get(c['paths'][0][1])
-                why = 'nodes-owned-by-own-session'
+            # the node the last evaluation of the request stopped at (observed
+            # at the boundary: the create that met an existing node)
+            path = proc.waiting.get(rid)
+            node = self.srv.nodes.get(path) if path is not None else None
+            if path is None:
+                why = 'request-never-evaluated'
+            elif node is None:
+                why = 'blocking-node-gone'
+            elif node.owner == proc.sid:
+                why = 'blocking-node-owned-by-own-session'
+            elif not self.srv.sessions.get(node.owner):
+                why = 'blocking-node-gone'
+            elif any(cl is proc.zk for cl, _cb in self.srv.data_watches.get(path, [])):
+                self.count('legitimate_waits_at_end')
+                continue
             else:
-                path, node = blocking
-                if node is not None and self.srv.sessions.get(node.owner):
-                    armed = any(cl is proc.zk for cl, _cb in self.srv.data_watches.get(path, []))
-                    if armed:
-                        self.count('legitimate_waits_at_end')
-                        continue
-                    why = 'no-watch-on-foreign-node'
-                else:
-                    why = 'blocking-node-gone'
+                why = 'no-watch-on-foreign-node'
             self.report(
                 'stuck-request:' + why,
                 'create request of container %s on %s has no reply although nothing is enabled any more '
-                '(node it waits for / first node it does not own: %s, %s)' % (
+                '(node its last evaluation stopped at: %s, %s)' % (
                     c['cid'], c['host'], path,
                     'absent' if node is None else 'owner %#x' % node.owner),
                 dict(container=c['cid'], host=c['host'], path=path))
